@@ -68,6 +68,9 @@ def generate(rng, tier, idx):
     if sc['normalise_first']:
         sc['force'] = True
         sc['round2'] = None
+    if rng.random() < 0.25:
+        # one sub-Manifest carries a valid cleartext signature on disk (signed by hand, or once a top-level Manifest)
+        sc['sub_signed'] = rng.randrange(100)
     return sc
 
 
@@ -86,6 +89,18 @@ def run_world(sc, sign, keyid, fault, orig_signed):
                 plain = G.decompress(f.read(), G.comp_of(topname)).decode('utf8')
             with _o['open'](top, 'wb') as f:
                 f.write(G.compress(GS.clearsign(plain, key='signer').encode('utf8'), G.comp_of(topname)))
+        pre_signed = None
+        if sc.get('sub_signed') is not None:
+            subs_ = sorted(m_['p'] for m_ in sc.get('manifests', []) if m_['p'] != topname and os.path.isfile(os.path.join(w.root, m_['p'])))
+            if subs_:
+                pre_signed = subs_[sc['sub_signed'] % len(subs_)]
+                try:
+                    with _o['open'](os.path.join(w.root, pre_signed), 'rb') as f:
+                        plain_ = G.decompress(f.read(), G.comp_of(pre_signed)).decode('utf8')
+                    with _o['open'](os.path.join(w.root, pre_signed), 'wb') as f:
+                        f.write(G.compress(GS.clearsign(plain_, key='signer').encode('utf8'), G.comp_of(pre_signed)))
+                except (OSError, UnicodeDecodeError, EOFError):
+                    pre_signed = None
         for e in sc.get('edits', []):
             w.mutate(e)
         clock = Clock(epoch_ns=w.epoch_ns + 100_000_000_000, key=sc['order_key'], mode='micro')
@@ -170,7 +185,11 @@ def run_world(sc, sign, keyid, fault, orig_signed):
                     except Exception:
                         continue
                     if '-----BEGIN PGP' in t:
-                        armor.append(os.path.relpath(os.path.join(d, n), w.root))
+                        rel_ = os.path.relpath(os.path.join(d, n), w.root)
+                        if rel_ == pre_signed and not any(e[1] == 'open.w' and rel_ in e[2].split(' -> ') for e in seam.write_events):
+                            continue       # it arrived signed and this update did not write it
+                        armor.append(rel_)
+    seam.pre_signed_sub = pre_signed
     return r, text, armor, wrote_top, seam
 
 
@@ -197,7 +216,7 @@ def execute(sc):
             zones['update-failed-genuine-oserror:' + str(r[1])] = 1     # e.g. a registered sub-Manifest's directory was deleted
         elif r[0] != 'GE':
             violations.append(viol('sign.wrong-failure', '%s: %s' % (what, describe(r)), sig='%s:%s' % (r[0], r[1])))
-        elif not (expect_sign and not signer_ok) and not (orig and fault) and not wrote_top:
+        elif not (expect_sign and not signer_ok) and not ((orig or getattr(seam, 'pre_signed_sub', None)) and fault) and not wrote_top:
             # a failure with a healthy signer (or no signing at all) on a well-formed tree
             zones['update-failed:' + str(r[1])] = 1
             if r[1] in ('OpenPGPSigningFailure', 'OpenPGPNoImplementation'):
